@@ -79,7 +79,7 @@ def _c18_case(c):
 
 CONFIG = {
     "properties_file": "Properties/C18.v",
-    "proof_files": ["Base/Prelude.v", "Base/FlatFS.v", "Proofs/CredFile.v"],
+    "proof_files": ["Base/Prelude.v", "Base/FlatFS.v", "Proofs/CredFile.v", "Proofs/CredSave.v"],
     "model_files": ["Generated/GC18.v", "Model/Base64.v", "Model/CredFile.v", "Model/CredSave.v"],
     "extract": "XC18.v",
     "ml_main": "c18_main.ml",
